@@ -68,6 +68,8 @@ class GDevice(Device):
       self._cost_d1_fn = self._cost_fn.deriv()
       self._cost_d2_fn = self._cost_fn.deriv(2)
     elif np.array(cost).ndim == 2:
+      if len(cost) != len(self):
+        raise ValueError('per-slot cost coefficients need one row per slot (%d)' % (len(self),))
       self._cost_fn = lambda x: Poly2D(cost).vector(x)
       self._cost_d1_fn = lambda x:Poly2D(cost).deriv(x)
       self._cost_d2_fn = lambda x: np.diag(Poly2D(cost).hess(x))
